@@ -23,7 +23,8 @@ with act :=
   | Reject (rc : N)
   | Return
   | Jump (tgt : rules)
-  | Goto (tgt : rules).
+  | Goto (tgt : rules)
+  | Call (tgt : rules).   (* another sequence used as a plain Executable ([exec: $seq]) *)
 
 (** What a matcher plugin answers: (true,nil) / (false,nil) / (_, err c). *)
 Inductive mres := MTrue | MFalse | MErr (c : N).
@@ -119,6 +120,13 @@ Section Sem.
         | Return => pre tm (k st)                         (* next.jumpBack.ExecNext, or nil *)
         | Jump tgt => pre tm (machine tgt (machine rest k) st)   (* NewChainWalker(To, &next) *)
         | Goto tgt => pre tm (machine tgt done st)               (* NewChainWalker(To, nil) *)
+        (* case n.E != nil with E = *Sequence: Sequence.Exec = a fresh walker, jumpBack nil *)
+        | Call tgt =>
+          let '(t, st', err) := machine tgt done st in
+          match err with
+          | Some c => (tm ++ t, st', Some c)
+          | None => pre (tm ++ t) (machine rest k st')
+          end
         end
       end
     end.
@@ -205,6 +213,12 @@ Section Sem.
           | (t, s, Err c) => (tm ++ t, s, Err c)
           | (t, s, _) => (tm ++ t, s, Stop)
           end
+        | Call tgt =>
+          (* a sequence as a plain action: it fails, or it is done (however it ended) *)
+          match spec_rules tgt done st with
+          | (t, s, Err c) => (tm ++ t, s, Err c)
+          | (t, s, _) => pre (tm ++ t) (spec_rules rest after s)
+          end
         end
       end
     end.
@@ -283,7 +297,13 @@ Arguments rep_wrapper {State} code w calls copy fail k st.
     - wrapper w: w mod 3 runs of the continuation; (w/3) mod 3 = 0 on the
       context itself, 1 on copies one after the other, 2 on copies
       concurrently (the same function of the context: every copy starts from
-      the same context); (w/9) mod 2 = 1 returns error 700+w at the end. *)
+      the same context); (w/9) mod 2 = 1 returns error 700+w at the end.
+    Error codes are opaque here: the sequence must hand whatever error value a
+    plugin returns to its caller. In the driver the VALUE behind a code is
+    drawn per run from a menu (own marker type, errors.New, context.Canceled,
+    context.DeadlineExceeded, io.EOF, %w-wrappings of these, a custom type
+    with Is/Unwrap, errors.Join) and the error that comes back is mapped to
+    the code of the plugin that made it. *)
 Definition hstate := option N.
 Definition hcode (st : hstate) : N := match st with None => 0 | Some rc => 1 + rc end.
 
@@ -321,7 +341,7 @@ Definition harness_env : env hstate := Env hstate h_match h_exec h_reject h_wrap
     look-ups, earlier captures keep the old chain). *)
 Inductive taction :=
   | TExec (e : N) | TWrap (w : N) | TAccept | TReject (rc : option N) | TReturn
-  | TJump (name : N) | TGoto (name : N).
+  | TJump (name : N) | TGoto (name : N) | TCall (name : N).
 Definition trule := (list (bool * N) * taction)%type.
 Definition tseq := (N * list trule)%type.          (* name, rules *)
 Definition registry := list (N * rules).           (* latest first *)
@@ -350,6 +370,8 @@ Definition resolve_action (K : known) (reg : registry) (a : taction) : option ac
   | TReturn => Some Return
   | TJump name => match lookup reg name with Some rs => Some (Jump rs) | None => None end
   | TGoto name => match lookup reg name with Some rs => Some (Goto rs) | None => None end
+  (* [$s<name>]: the registered *Sequence is an Executable *)
+  | TCall name => match lookup reg name with Some rs => Some (Call rs) | None => None end
   end.
 
 (** newNode: all matchers first, then the action; buildChain: rules in order *)
